@@ -32,6 +32,88 @@ def build_harness(wd, prop):
     return path, log
 
 
+def build_e2e(wd):
+    """the real program: src/*.c -> iauthd-c (with main.c and module.c), modules -> .so, same sanitizers"""
+    r = core.repo()
+    out = os.path.join(wd, "e2e")
+    os.makedirs(os.path.join(out, "mods"), exist_ok=True)
+    os.makedirs(os.path.join(wd, "e2e_run"), exist_ok=True)
+    defs = ['-DSYSCONFDIR="/nonexistent"', '-DMODULESDIR="%s/mods"' % out, '-DLOGDIR="%s"' % os.path.join(wd, "e2e_run")]
+    srcs = [os.path.join(r, "src", f) for f in sorted(os.listdir(os.path.join(r, "src"))) if f.endswith(".c")]
+    path, log = core.compile_c(out, "iauthd-c", srcs, extra=defs, libs=["-levent", "-ldl", "-lm", "-rdynamic"])
+    if not path:
+        return None, log
+    flags = core.BASE_CFLAGS + core.SAN_FLAGS + core.include_flags(wd) + defs + ["-fPIC", "-shared"]
+    for so, files in (("iauth.so", ["iauth_core.c", "iauth_misc.c"]), ("iauth_xquery.so", ["iauth_xquery.c"]), ("iauth_class.so", ["iauth_class.c"])):
+        cmd = ["gcc"] + flags + ["-fno-sanitize=shift"] + [os.path.join(r, "modules", f) for f in files] + ["-o", os.path.join(out, "mods", so)]
+        p = subprocess.run(cmd, stdout=subprocess.PIPE, stderr=subprocess.STDOUT, text=True)
+        if p.returncode != 0:
+            return None, " ".join(cmd) + "\n" + p.stdout[-3000:]
+    return out, ""
+
+
+def e2e_cmd(bindir, wd):
+    return ["/bin/sh", "-c", "cd %s/e2e_run && exec python3 %s %s" % (wd, os.path.join(core.HARNESS_DIR, "e2e_driver.py"), bindir)]
+
+
+def e2e_cases(prop, tier, seed):
+    """scenarios for the real program: no info requests of their own (the marker is one), timeouts
+    by real elapsing time (timeout 1 second), reloads by SIGUSR1"""
+    rng = core.rng_for(seed, "proto-e2e-" + prop)
+    n = 24 if tier == "quick" else 400
+    cases = []
+    for i in range(n):
+        mods = rng.choice(["core", "xquery", "class"])
+        cfg = rand_cfg(rng, mods, timeout=rng.choice([0, 0, 0, 1]))
+        if prop == "C09":
+            cfg.logs = rng.choice(LOGS_SECTIONS)
+        ids = rng.sample([1, 2, 5, 7, 300], rng.choice([1, 2, 3]))
+        scripts = {cid: [e for e in client_script(rng, cid, cfg, mods) if e[0] != "timeout"] for cid in ids}
+        ops = render_schedule(rng, scripts)
+        if cfg.timeout and rng.random() < 0.7:
+            ops.insert(rng.randint(1, len(ops)), "elapse")
+        if prop in ("C17", "C09") or rng.random() < 0.3:
+            new = mutate_cfg(rng, cfg, mods)
+            new.logs = cfg.logs
+            pos = rng.randint(0, len(ops))
+            if prop == "C09" and rng.random() < 0.5:
+                ops.insert(pos, "reload %s bad=1" % hx(rng.choice(BROKEN_CONFS)))
+            else:
+                ops.insert(pos, new.op("reload"))
+                probe = {cid: [e for e in client_script(rng, cid, new, mods) if e[0] != "timeout"] for cid in rng.sample([11, 12], 1)}
+                ops += render_schedule(rng, probe)
+        if rng.random() < 0.3:
+            ops.insert(rng.randint(0, len(ops)), inl(rng.choice([m for m in MALFORMED if not m.startswith(b"-1 ?")])))
+        cases.append(Case("e2e/%d" % i, header(mods, cfg) + ops + ["eof"], tags={"mods": mods, "e2e": True}))
+    return cases
+
+
+def e2e_canon(rec):
+    """the e2e driver cannot know rc / fired / timer counts: compare what it can see"""
+    cr = canon_record(rec)
+    if cr[0] == "out":
+        return ("out", cr[1])
+    if cr[0] == "rc":
+        return ("out", cr[2])
+    if cr[0] == "exit":
+        return ("exit", cr[1])
+    return cr
+
+
+E2E_PROPS = {"C01", "C08", "C09", "C10", "C17"}
+
+
+def extra_runs(prop, tier, seed, wd):
+    if prop not in E2E_PROPS:
+        return []
+    bindir, log = build_e2e(wd)
+    if not bindir:
+        return [{"name": "e2e (real program)", "error": "the real program does not build: " + log[-1500:]}]
+    return [{"name": "e2e: real main.c/module.c, dlopen'ed modules, pipes, libevent timers, SIGUSR1",
+             "cmd": e2e_cmd(bindir, wd), "cases": e2e_cases(prop, tier, seed),
+             "projector": (lambda i, rec: e2e_canon(rec)), "workers": 12}]
+
+
 def harness_cmd(path, prop):
     # the harness creates its per-case scratch directories under its cwd
     return ["/bin/sh", "-c", "cd %s/run && exec %s" % (os.path.dirname(path), path)]
